@@ -30,6 +30,11 @@ def sname(q, sfx=False):
     return "q%d" % q
 
 
+import threading
+_tls = threading.local()
+LEAF_STYLE = [0]      # (default) how nullary rules are spelt in the files written for the tool: 0 "a", 1 "a()", 2 "a( )" (all legal Timbuk)
+
+
 def ta_text(a, name="A", sfx=False):
     syms = []
     for r in a["rules"]:
@@ -43,7 +48,8 @@ def ta_text(a, name="A", sfx=False):
     lines = ["Ops " + " ".join(syms), "", "Automaton " + name, "States " + " ".join(sname(q, sfx) for q in sorted(st)),
              "Final States " + " ".join(sname(q, sfx) for q in a["fin"]), "Transitions"]
     for r in a["rules"]:
-        lines.append((r[0] if not r[1] else "%s(%s)" % (r[0], ",".join(sname(k, sfx) for k in r[1]))) + " -> " + sname(r[2], sfx))
+        leaf = r[0] + ["", "()", "( )"][getattr(_tls, "leaf", 0) % 3]
+        lines.append((leaf if not r[1] else "%s(%s)" % (r[0], ",".join(sname(k, sfx) for k in r[1]))) + " -> " + sname(r[2], sfx))
     return "\n".join(lines) + "\n"
 
 
@@ -226,6 +232,7 @@ def ta_op_events(cases, rd, repr_="expl"):
         cmd = c["cmd"]
         fa = os.path.join(d, "oa%d.txt" % i)
         sfx = (True if i % 3 == 0 else ("long" if i % 3 == 1 and i % 2 == 0 else False))
+        _tls.leaf = [0, 0, 1, 2, 0, 2, 1][i % 7]       # nullary rules spelt "a", "a()" or "a( )" in the files of this case
         txt = ta_text(c["A"], "A", sfx)
         if cmd == "cmpl" and c.get("syms"):
             # the alphabet of the complement is what the Ops line declares (incl. unused symbols)
